@@ -574,7 +574,7 @@ func init() {
 		Doc:  "edge-rule label obligations over every AddEdge[Weighted] call site (DESIGN §4 EDGE)",
 		Run:  runEdge,
 		Floor: map[string]int{
-			"EDGE-T": 6, "EDGE-S": 6, "EDGE-N": 1, "EDGE-K": 10, "EDGE-V": 8, "EDGE-X": 6,
+			"EDGE-T": 6, "EDGE-S": 6, "EDGE-N": 1, "EDGE-K": 10, "EDGE-V": 8, "EDGE-X": 7,
 		},
 	})
 }
@@ -699,6 +699,61 @@ func runEdge(c *Ctx) {
 		c.R.Add("EDGE-X", e.Role+"|"+e.Class+"|no-unreviewed-restriction", e.Role, e.Pos, extra == "",
 			"a pass-through edge rule is restricted only by kind filters, label relations of its two endpoints, the interface-kind/implements pair, self-exclusion and `consumer has no value yet`",
 			ternary(extra == "", "only reviewed conditions", "additional condition: "+extra))
+	}
+	// the provider edge (function -> root, class F1) exists exactly for functions without inputs: a function that has
+	// inputs and is nevertheless wired to the root is "reachable" without them, which diverts shortest paths through it
+	for _, e := range edges {
+		if e.Class != "F1" {
+			continue
+		}
+		isEmptyTest := func(l core.Lit) bool {
+			if l.Kind == "call" && l.Pol && strings.HasSuffix(l.Callee, ".empty") && len(l.Args) == 1 {
+				if fr, ok := core.AsFieldLoad(l.Args[0]); ok && fr.Owner == "Func" {
+					return true
+				}
+			}
+			if l.Kind == "cmp" && l.Op == token.EQL && l.Pol {
+				// the expanded form: len(input.values) == 0 / input.structType == nil
+				if k, ok := core.ConstInt(l.Y); ok && k == 0 && strings.Contains(core.Path(l.X), "input") {
+					return true
+				}
+				if core.IsNilConst(l.Y) && strings.Contains(core.Path(l.X), "input") {
+					return true
+				}
+			}
+			return false
+		}
+		has := func(ls []core.Lit) bool {
+			for _, l := range p.ExpandLitsKeep(ls) {
+				if isEmptyTest(l) {
+					return true
+				}
+			}
+			return false
+		}
+		okG, found := has(e.Lits), "no `input set is empty` guard dominates the edge"
+		if !okG {
+			// `a || b`: the block is entered over several edges — every one of them must carry an emptiness test
+			blk := e.Inner.Block()
+			if len(blk.Preds) > 1 {
+				all := true
+				for _, pb := range blk.Preds {
+					ls := core.Lits(core.Guards(pb))
+					if br, isIf := pb.Instrs[len(pb.Instrs)-1].(*ssa.If); isIf {
+						ls = append(ls, core.LitOf(br.Cond, pb.Succs[0] == blk))
+					}
+					if !has(ls) {
+						all = false
+					}
+				}
+				okG = all
+			}
+		}
+		if okG {
+			found = "guarded by an emptiness test of the function's input set on every way in"
+		}
+		c.R.Add("EDGE-X", e.Role+"|F1|provider-edge-only-without-inputs", e.Role, e.Pos, okG,
+			"a function vertex depends on the root directly only when the function has no inputs", found)
 	}
 	// EDGE-V: every vertex added to the graph is allocated for this graph (no vertex object, and hence no
 	// vertex value, survives from an earlier call or planning run)
